@@ -44,8 +44,8 @@ def _cases(draw):
         # covariant under a phase shift.  The relation is therefore asserted on sequences whose sampled phase is one
         # constant: back-to-back pulses on the global channel sharing one phase, no SLM mask, no local channel.
         seq = draw(gen.seq_cases(n_min=1 if backend == "sv" else 2, n_max=6, basis="rydberg", allow_mod=False, allow_local=False,
-                                 allow_dmm=(kind == "phase_offset"), allow_slm=False, max_ops=4, dur_hi=60))
-        seq["ops"] = [o for o in seq["ops"] if o["t"] in ("pulse", "dmm")]
+                                 allow_dmm=False, allow_slm=False, max_ops=4, dur_hi=60))
+        seq["ops"] = [o for o in seq["ops"] if o["t"] == "pulse"]  # no gaps, no parallel channel outlasting the pulses
         phi = draw(st.sampled_from([0.4, 1.3, 2.0, 3.0]))
         for o in seq["ops"]:
             if o["t"] == "pulse":
